@@ -313,9 +313,12 @@ theorem no_stop_in_output_partial (limit : Int) (stops : List Bytes) (evs : List
     rw [hout] at hocc
     obtain ⟨a, b, hab⟩ := hocc
     have hgen : f.genText = a ++ t ++ (b ++ f.genText.drop idx) := by
-      have := (List.take_append_drop idx f.genText).symm
-      rw [hab] at this
-      rw [this]; simp [List.append_assoc]
+      have h0 : f.genText = f.genText.take idx ++ f.genText.drop idx :=
+        (List.take_append_drop idx f.genText).symm
+      have hab' : f.genText.take idx = a ++ t ++ b := hab
+      rw [hab'] at h0
+      rw [List.append_assoc] at h0
+      exact h0
     have hOcc : Occurs t f.genText := ⟨a, _, hgen⟩
     obtain ⟨j, hj⟩ := hOcc.indexOf
     have hjle := (indexOf_spec t _ j hj).2 a _ hgen
@@ -360,6 +363,56 @@ theorem single_stop (limit : Int) (s : Bytes) (evs : List Ev) (hs : s ≠ [] ∧
     simp [hi]
   · intro hno s' hc
     obtain ⟨_, hmem, hfind, _, _⟩ := stop_found limit [s] evs hok s' hvp hc
-    exact hno (findStop_some hfind).2 |> fun h => h.elim <| by simp at hmem; subst hmem; exact (findStop_some hfind).2
+    simp at hmem; subst hmem
+    exact hno (findStop_some hfind).2
+
+/-! ### 6. witnesses of the defects the model shares with the code -/
+
+
+/-- **F7** (`FindStop` takes the first *listed* stop, not the earliest occurrence): one token
+    `"}\n\n"` with stops `["\n\n", "}"]` streams `"}"`, which contains the stop `"}"`; with the
+    stops listed the other way round nothing is streamed.  The guard of
+    `no_stop_in_output_partial` is false exactly here. -/
+theorem F7_first_listed_not_earliest :
+    let evs := [Ev.piece [0x7d, 0x0a, 0x0a], Ev.eos]
+    (run 0 [[0x0a, 0x0a], [0x7d]] init evs).out = [[0x7d]] ∧
+    (run 0 [[0x0a, 0x0a], [0x7d]] init evs).done = some .stop ∧
+    contains (run 0 [[0x0a, 0x0a], [0x7d]] init evs).outText [0x7d] = true ∧
+    firstListedIsEarliest [[0x0a, 0x0a], [0x7d]] [0x7d, 0x0a, 0x0a] = false ∧
+    (run 0 [[0x7d], [0x0a, 0x0a]] init evs).out = [] := by decide
+
+/-- **F20a** (invalid bytes are dropped mid-stream): pieces `"a" "\xff" "b"` with stop `"ab"`
+    stream `"a"` then `"b"`: the output `"ab"` is not a prefix of the generated `"a\xffb"` and it
+    *is* the stop string.  (The generated text is not valid UTF-8, so the valid-text clauses do not
+    apply; the unconditional "prefix of the generated text" clause of the property is violated.) -/
+theorem F20_invalid_bytes_dropped :
+    let f := run 0 [[0x61, 0x62]] init [Ev.piece [0x61], Ev.piece [0xff], Ev.piece [0x62], Ev.eos]
+    f.out = [[0x61], [0x62]] ∧ f.genText = [0x61, 0xff, 0x62] ∧
+    f.outText.isPrefixOf f.genText = false ∧ contains f.outText [0x61, 0x62] = true := by decide
+
+/-- **F20b** (two reason values for three causes): an EOS-terminated run and a
+    stop-string-terminated run report the same reason. -/
+theorem F20_reason_not_injective :
+    let f1 := run 0 [[0x78]] init [Ev.piece [0x61], Ev.eos]
+    let f2 := run 0 [[0x78]] init [Ev.piece [0x61], Ev.piece [0x78]]
+    f1.cause = some .eos ∧ f2.cause = some (.stopString [0x78]) ∧ f1.done = f2.done := by decide
+
+/-! ### 7. non-vacuity: the hypotheses are met by non-trivial concrete runs -/
+
+/-- a multi-byte character split across tokens, a stop split across tokens, two stops, a limit:
+    `"a\xe2" "\x82\xac<" "|x"` with stops `["<|", "zz"]`, limit 5 -/
+example :
+    let stops : List Bytes := [[0x3c, 0x7c], [0x7a, 0x7a]]
+    let evs := [Ev.piece [0x61, 0xe2], Ev.piece [0x82, 0xac, 0x3c], Ev.piece [0x7c, 0x78], Ev.eos]
+    let f := run 5 stops init evs
+    (∀ t ∈ stops, t ≠ [] ∧ validUtf8 t = true) ∧ validUtf8 f.genText = true ∧
+    f.cause = some (.stopString [0x3c, 0x7c]) ∧ f.out = [[0x61, 0xe2, 0x82, 0xac]] ∧
+    firstListedIsEarliest stops f.genText = true := by decide
+
+/-- the limit cuts generation inside a character: the text is a `ValidPrefix`, not valid -/
+example :
+    let f := run 2 [] init [Ev.piece [0x61], Ev.piece [0xe2, 0x82], Ev.piece [0xac]]
+    validUtf8 (f.genText ++ [0xac]) = true ∧ validUtf8 f.genText = false ∧
+    f.cause = some .limit ∧ f.out = [[0x61]] := by decide
 
 end OllamaVerif.C14
